@@ -64,7 +64,7 @@ var c14rt = Register("C14", "C14.roundtrip", func(a c14RTArgs) *Violation {
 			}
 		}
 	}
-	var back d128.Decimal
+	back := prior(hashWords(a.V.Hi, a.V.Lo, 3))
 	keep := append([]byte(nil), coef...)
 	if err := back.Compose(form, neg, coef, exp); err != nil {
 		return violf("Compose(Decompose(%s)): %v", a.V, err)
@@ -101,7 +101,7 @@ var c14parts = Register("C14", "C14.parts", func(a c14PartsArgs) *Violation {
 	st := S("C14", "parts")
 	st.Eval(1)
 	keep := append([]byte(nil), a.Coef...)
-	var d d128.Decimal
+	d := prior(hashBytes(a.Coef) + uint64(uint32(a.Exp)) + uint64(a.Form))
 	err := d.Compose(a.Form, a.Neg, a.Coef, a.Exp)
 	if !bytes.Equal(keep, a.Coef) {
 		return violf("Compose modified the coefficient slice")
